@@ -11,6 +11,7 @@ TIES = ["content_Store", "content_bufWriter_Write", "model_NotEnoughSpace_Reader
 TRUSTED_BASE = [
     "Lean 4.33.0 kernel; axioms per theorem under coverage.theorems",
     "model FsDb/Model/Copy.lean: a root accepts the first `cap` bytes (partial or whole-chunk granularity), io.Copy chunking; the order store.Set writes content / content record / version is part of FsDb/Model/Sys.lean",
+    "the stages of a failing store.Set (nothing persistent / content file / content file + fileContent record) and what each leaves behind are modelled (Properties/C10.lean setFailed); which stage a concrete fault reaches is observed, not proved",
     "fault injection on the real code through the verif hooks FaultWrite (ENOSPC after k bytes of a file) and DiskFree (reported free space per root); 'connection breaks' is injected as context cancellation / source reader error, not as a TCP reset",
     "tie: skeleton texts of content.Store, bufWriter.Write, NotEnoughSpaceError.Reader, store.Set, streamreader.Read, streamwriter, SetFile handler, external SetReader/Create, inline SetReader/Create",
 ]
